@@ -99,12 +99,18 @@ Definition on_fd (o : op) (p : path) (r : option node) (w : world) : bool * worl
 
 (* ---- the control-line buffer, index level ---- *)
 (* buf = the bytes stored so far (malloc'ed memory is uninitialised beyond them) *)
+(* store v at index k of the stored bytes: inside them, or right behind them *)
+Fixpoint list_set (l : list N) (k : nat) (v : N) : option (list N) :=
+  match k with
+  | O => Some (v :: tl l)
+  | S k' => match l with
+            | [] => None
+            | x :: r => option_map (cons x) (list_set r k' v)
+            end
+  end.
+
 Definition buf_set (buf : list N) (i : N) (v : N) : option (list N) :=
-  if BUFSIZ <=? i then None
-  else let k := N.to_nat i in
-       if (k <? length buf)%nat then Some (firstn k buf ++ v :: skipn (S k) buf)
-       else if (k =? length buf)%nat then Some (buf ++ [v])
-       else None.
+  if BUFSIZ <=? i then None else list_set buf (N.to_nat i) v.
 
 Inductive rline :=
 | RL_Fault
